@@ -180,7 +180,9 @@ def gen_cfa_program(rng, caf, daf, cfa_reg, saved, n):
             r = free.pop()
             used.append(r)
             off = rng.randint(0, 12)            # 0: saved exactly at the CFA
-            if r < 0x40 and rng.random() < 0.8:
+            if rng.random() < 0.12:
+                out += b'\x09' + uleb(r) + uleb(rng.choice(saved))     # kept in another register (leaf functions, PLT stubs)
+            elif r < 0x40 and rng.random() < 0.8:
                 out += bytes([0x80 | r]) + uleb(off)
             else:
                 out += b'\x05' + uleb(r) + uleb(off)
